@@ -1,12 +1,17 @@
 (* C04 -- JSON serialisation is lossless, strict and yields a fully usable container.
    Model: Model/Json.v (to_json / from_json transcribed field by field).
-   Proved here: strictness for every tree and every arithmetic instance; the exact round trip of
-   the leaves (name inheritance included).  The round trip of the container primitives and the
-   algebra on the reload are established by the document correspondence and the oracle on every
-   run (DESIGN.md section 6 C04) -- this property is therefore claimed as partial. *)
-From Coq Require Import List String.
-From Hgm Require Import NumOps Xq Agg Ops Build Json LeafAlg JsonFacts.
+   Proved here: strictness for every tree and every arithmetic instance; at the exact instance,
+   for every tree of every shape and depth that the reader accepts (jwf), Factory.fromJson of the
+   written document succeeds, yields the tree [reload a] given in closed form (names inherited
+   through values:name / bins:name / sub:name, immutable quantities), and that tree writes the
+   IDENTICAL document; the two clauses of jwf that the code needs and a reachable tree can violate
+   are the two known findings (witnesses below).  Equality with the original and the algebra on the
+   reload are established by the document correspondence and the oracle on every run (DESIGN.md
+   section 6 C04) -- the property is therefore still claimed as partial. *)
+From Coq Require Import List String ZArith QArith Qcanon.
+From Hgm Require Import NumOps Xq Agg Ops Build Json LeafAlg JsonFacts JsonRT.
 Import ListNotations.
+Local Open Scope string_scope.
 
 (* json.dumps(h.toJson(), allow_nan=False) succeeds: non-finite numbers are the strings
    "nan" / "inf" / "-inf" everywhere (the raw SparselyBin origin must be finite) *)
@@ -31,6 +36,86 @@ Proof. exact leaf_from_to. Qed.
 Theorem C04_deviate_exact : forall s, leaf_wf LDeviate s -> reload_state LDeviate s = s.
 Proof. exact deviate_reload_exact. Qed.
 
+(* the whole tree: every primitive in every position, any depth.  jwf a: entries >= 0 everywhere;
+   the shape the constructors produce (Bin: >= 1 value + 3 flows, low < high; CentrallyBin >= 2
+   centres; IrregularlyBin / Stack >= 1 threshold; Fraction 2; Select 1; Label / Index / Branch
+   >= 1); children that share a "...:type" field have the same type; sparse maps sorted, integer keys
+   for SparselyBin (negative included) and string keys for Categorize; Bag keys agree with the
+   declared range; Deviate leaves hold consistent moments. *)
+Theorem C04_round_trip : forall (a : agg Xq) fuel, jwf a -> (height a <= fuel)%nat ->
+  from_json fuel (to_json a) = Ok (reload a (qname_of a)) /\
+  to_json (reload a (qname_of a)) = to_json a.
+Proof. exact json_round_trip. Qed.
+
+(* ... at every position inside a document as well: a fragment written with or without its name,
+   read back under any inherited name *)
+Theorem C04_fragment_round_trip : forall (a : agg Xq) fuel sup parent, (height a <= fuel)%nat -> jwf a ->
+  from_frag fuel (type_name a) (to_frag a sup) parent =
+  Ok (reload a (pick_name (if sup then None else qname_of a) parent)).
+Proof. exact round_trip. Qed.
+
+(* str(int) / int(str) of the sparse bin indexes, negative ones included *)
+Theorem C04_index_keys : forall z : Z, parse_int (Snap.z_str z) = Some z.
+Proof. exact Decimal.parse_int_z_str. Qed.
+
+(* non-vacuity: a Label of [Bin of named Sums with Count flows; SparselyBin with negative index
+   holding a Bag of vectors with a NaN component] satisfies jwf *)
+Definition nq (s : string) : quantity Xq := {| qname := Some s; qid := 1; qfn := fun _ => QRaise |}.
+Definition xz (z : Z) : xq := XF (Q2Qc (inject_Z z)).
+Definition ex_sum (e v : Z) : agg Xq :=
+  Leaf LSum (nq "x") (@Build_leafstate Xq (xz e) (xz v) (xz 0) []).
+Definition ex_count (e : Z) : agg Xq :=
+  Leaf (LCount TId) no_quantity (@Build_leafstate Xq (xz e) (xz 0) (xz 0) []).
+Definition ex_bag : agg Xq :=
+  Leaf (LBag (RV 2)) (nq "v")
+       (@Build_leafstate Xq (xz 2) (xz 0) (xz 0) [(@BVec Xq [Some (xz 1); None], xz 2)]).
+Definition ex_tree : agg Xq :=
+  Node (@KLabel Xq ["a"; "b"]) no_quantity (xz 5)
+       [Node (@KSelect Xq) (nq "cut") (xz 5)
+             [Node (@KBin Xq (xz 0) (xz 1)) (nq "q") (xz 5)
+                   [ex_sum 2 3; ex_sum 1 1; ex_count 1; ex_count 1; ex_count 0] [] None "Sum"] [] None "Bin";
+        Node (@KSelect Xq) (nq "cut2") (xz 2)
+             [Node (@KSparse Xq (xz 1) (xz 0)) (nq "s") (xz 2) [ex_count 0]
+                   [(KInt (-3), ex_bag)] (Some ex_bag) "Bag"] [] None "SparselyBin"]
+       [] None "".
+
+Example C04_round_trip_ex : jwf ex_tree /\ (height ex_tree <= 5)%nat.
+Proof.
+  split; [|vm_compute; repeat constructor].
+  cbn. repeat split; try reflexivity; repeat constructor; try reflexivity; eauto.
+  - eexists; reflexivity.
+  - discriminate.
+  - intros t E; injection E as <-; reflexivity.
+Qed.
+
+(* the two known findings are exactly the two clauses of jwf that a reachable tree can violate:
+   (1) an empty SparselyBin / Categorize whose template quantity is named loses "bins:name" *)
+Definition ex_empty_sparse : agg Xq :=
+  Node (@KSparse Xq (xz 1) (xz 0)) (nq "s") (xz 0) [ex_count 0] [] (Some (ex_sum 0 0)) "Sum".
+
+Definition reloaded_empty_sparse : agg Xq :=
+  match from_json 5 (to_json ex_empty_sparse) with Ok b => b | Err => ex_empty_sparse end.
+
+(* the reader accepts the document, and the reload writes a different one (decided on the canonical
+   tokens of the two documents) *)
+Theorem C04_empty_sparse_name_refuted :
+  (exists b, from_json 5 (to_json ex_empty_sparse) = Ok b) /\
+  to_json reloaded_empty_sparse <> to_json ex_empty_sparse.
+Proof.
+  assert (A : (match from_json 5 (to_json ex_empty_sparse) with Ok _ => true | Err => false end) = true)
+    by (vm_compute; reflexivity).
+  split.
+  - destruct (from_json 5 (to_json ex_empty_sparse)) as [b|]; [exists b; reflexivity | discriminate A].
+  - intro E.
+    assert (T : tok_json (to_json reloaded_empty_sparse) = tok_json (to_json ex_empty_sparse))
+      by (rewrite E; reflexivity).
+    vm_compute in T. discriminate T.
+Qed.
+
 Print Assumptions C04_strict.
+Print Assumptions C04_round_trip.
+Print Assumptions C04_fragment_round_trip.
+Print Assumptions C04_index_keys.
+Print Assumptions C04_empty_sparse_name_refuted.
 Print Assumptions C04_leaf_round_trip.
 Print Assumptions C04_deviate_exact.
